@@ -298,19 +298,34 @@ func (t *tr) success(vals []*val) string {
 func (t *tr) noteResAlias(v *val, self int) {
 	seen := map[*object]bool{}
 	var cellOf func(c *cell)
+	var visit func(v *val)
 	cellOf = func(c *cell) {
 		if c == nil {
 			return
+		}
+		if c.origin == oGlobal { // (the caller would take it for fresh storage and could write the global through it)
+			t.fail("the result points to the package-level object %s", c.hint)
 		}
 		if (c.origin == oPField || (c.origin == oParam && c.pidx != self)) && c.pidx >= 0 {
 			t.resAlias[c.pidx] = true
 		}
 		cellOf(c.shares)
+		for _, a := range c.via {
+			visit(a)
+		}
 	}
-	var visit func(v *val)
 	visit = func(v *val) {
 		if v == nil || v.isNil {
 			return
+		}
+		if v.c == nil && (v.t.k == kZList || (v.t.k == kList && intList(v.t))) {
+			// a slice of pointers kept as a list of values: it may hold any pointer argument
+			for i, pa := range t.params {
+				switch pa.t.k {
+				case kZ, kFe, kStruct, kZList, kList:
+					t.resAlias[i] = true
+				}
+			}
 		}
 		cellOf(v.c)
 		if v.el != nil {
@@ -318,12 +333,18 @@ func (t *tr) noteResAlias(v *val, self int) {
 		}
 		if o := v.o; o != nil && !seen[o] {
 			seen[o] = true
+			if o.origin == oGlobal {
+				t.fail("the result points to the package-level object %s", o.hint)
+			}
 			isSelf := o.origin == oParam && o.pidx == self && o.owner == nil
 			if !isSelf && o.pw && o.pidx >= 0 && (o.whole != "" || o.origin == oParamVal) {
 				t.resAlias[o.pidx] = true // (a part of a parameter, or a by-value copy holding its pointers)
 			}
 			for _, fv := range o.f {
 				visit(fv)
+			}
+			for _, a := range o.via {
+				visit(a)
 			}
 		}
 	}
